@@ -19,6 +19,7 @@ decidable well-formedness predicates, then instantiated on the concrete handler 
   service and of the settings are independent parameters (`credsAfter`);
 * `dmap_current_pin`, `dmap_paired_iff`, `dmap_stored_only_if_paired`: sequences of pin() /
   request / finish() on one DMAP handler: a request is judged against the most recent PIN only;
+  `dmap_bad_reply_no_effect`: a request whose answer cannot be encoded pairs nothing;
 * per handler: `wellFormed` by `decide`, and the instantiated statements.
 * DMAP signals failure only through `has_paired = False` (finish() returns normally):
   `handlers_fault_atomic_counterexample`, `handlers_fault_atomic_partial`, `dmap_fault_no_effect`.
